@@ -260,6 +260,11 @@ class Adaptor(Model):
 
 
 def iter_next(ip, it):
+    if isinstance(it, Agg) and it.name == 'Range':
+        a, b = it.fields
+        if ip.path.branch(a.t < b.t, 'range.next'):
+            return Agg('Range', [S(z3.simplify(a.t + 1), a.ty), b]), some(a)
+        return it, NONE
     if isinstance(it, (Window, Adaptor)):
         r = yield from it.next(ip)
         return r
@@ -272,6 +277,8 @@ def iter_next(ip, it):
 def as_window(ip, v, by_ref=False, root=None):
     """IntoIterator for the collection values"""
     if isinstance(v, (Window, Adaptor)):
+        return v
+    if isinstance(v, Agg) and v.name == 'Range':
         return v
     if isinstance(v, Seq):
         return Window(v, 0, v.n, by_ref, root)
